@@ -7,7 +7,8 @@ CONSTANTS Emit, Rich
 MCVars == {"a", "b"}
 MCScalars == IF Rich THEN {"Integer", "String", "Float", "Symbol"} ELSE {"Integer", "String", "Float"}
 MCArrLits == {<<"Integer">>, <<"Integer", "String">>} \cup (IF Rich THEN {<<"String", "Symbol">>, <<>>} ELSE {})
-MCHashLits == {<<[k |-> "a", c |-> "Integer"], [k |-> "b", c |-> "String"]>>}
+MCHashLits == {<<[k |-> "a", c |-> "Integer"], [k |-> "b", c |-> "String"]>>,
+               <<[k |-> "a", c |-> "NilClass"], [k |-> "b", c |-> "Integer"]>>}      \* a key that stores nil is not a missing key
               \cup (IF Rich THEN {<<[k |-> "a", c |-> "Float"]>>} ELSE {})
 
 M(recv, name, ret, arg) == [recv |-> recv, name |-> name, ret |-> ret, arg |-> arg]
